@@ -40,6 +40,7 @@ type rules struct {
 	procs  bool // runtime.GOMAXPROCS(0) -> verifsim.Procs()
 	graph  bool // loader.Graph -> verifhook.Graph
 	stdio  bool // os.Stdout/os.Stderr -> verifsim.Stdout()/Stderr()
+	yieldAt []string // "Recv.Func": a scheduling point is inserted at function entry (pre-emption points inside long sequential code)
 	regist []string // composite literal types whose address is registered for canonical map keys
 	skip   map[string]bool // file base names not to touch
 }
@@ -51,7 +52,8 @@ var plan = map[string]rules{
 	"honnef.co/go/tools/internal/sync":     {conc: true},
 	"honnef.co/go/tools/lintcmd/runner":    {fs: true, conc: true, maps: true, procs: true, graph: true},
 	"honnef.co/go/tools/lintcmd":           {conc: true, maps: true, stdio: true},
-	"honnef.co/go/tools/go/ir":             {conc: true, maps: true, procs: true, regist: []string{"task"}},
+	"honnef.co/go/tools/go/ir": {conc: true, maps: true, procs: true, regist: []string{"task"},
+		yieldAt: []string{"builder.buildFunction", "builder.stmt", "builder.buildParamsOnly", "builder.buildWrapper", "builder.buildBound", "builder.buildInstantiationWrapper", "builder.buildFromSyntax", "builder.buildYieldFunc", "builder.buildPackageInit", "Function.finishBody", "Function.done", "Function.startBody"}},
 	"honnef.co/go/tools/unused":            {maps: true},
 }
 
@@ -412,6 +414,26 @@ func (rw *rewriter) rewrite() bool {
 			if len(n.Names) == 2 && len(n.Values) == 1 {
 				if call, ok := isSimCall(n.Values[0], "Recv"); ok {
 					call.Fun.(*ast.SelectorExpr).Sel = ast.NewIdent("Recv2")
+				}
+			}
+
+		case *ast.FuncDecl:
+			if len(rw.r.yieldAt) > 0 && n.Body != nil {
+				name := n.Name.Name
+				if n.Recv != nil && len(n.Recv.List) == 1 {
+					t := n.Recv.List[0].Type
+					if st, ok := t.(*ast.StarExpr); ok {
+						t = st.X
+					}
+					if id, ok := t.(*ast.Ident); ok {
+						name = id.Name + "." + name
+					}
+				}
+				for _, want := range rw.r.yieldAt {
+					if want == name {
+						n.Body.List = append([]ast.Stmt{&ast.ExprStmt{X: rw.simCall("Yield")}}, n.Body.List...)
+						rep.Rewrites["entry-yield"]++
+					}
 				}
 			}
 
